@@ -50,6 +50,13 @@ func init() {
 			if i%3 == 0 {
 				p.managed, p.monotone, p.wSetDiscard = true, true, 4
 			}
+			if i%2 == 1 {
+				// many keys with several versions each and tiny tables: compaction outputs split into
+				// several tables, so that per-key state carried across a table break is exercised
+				p.keys, p.valLen, p.tableSize, p.nkeeps = keySetA[:6+c.Rng.Intn(6)], 12, 256, []int{2, 3}
+				p.wModify, p.wCommit, p.wBegin, p.wDiscard = 24, 12, 7, 3
+				p.nOps, p.finalCompact, p.wGet, p.wIter = 160+c.Rng.Intn(80), true, 1, 2
+			}
 			return p
 		})
 	})
